@@ -273,63 +273,80 @@ class Ctx:
             self.tq += time.time() - t1
             return r3
 
-        # cone of influence: only the hypotheses that (transitively) share a symbol with the goal.  Dropping
-        # hypotheses is sound for `unsat`; a `sat` here is not used.
-        sliced = _cone(self.pc, np_)
-        if len(sliced) < len(self.pc):
-            pur0 = _purify_for_nlsat(sliced + [np_])
-            self.nq += 1
-            t1 = time.time()
-            if pur0 is not None:
-                ns = _nlsat_solver()
-                ns.set("timeout", min(10000, self.timeout_ms))
-                r0 = _guarded_check(ns, pur0[0], min(10000, self.timeout_ms))
-            else:
-                self.set_timeout(min(5000, self.timeout_ms))
-                r0 = _guarded_check(self.s, sliced + [np_], self._cur_timeout())
-            self.tq += time.time() - t1
-            if r0 == z3.unsat:
-                r, relaxed = z3.unsat, True
-        # pure non-linear real arithmetic: the nlsat tactic alone is far stronger than the default combination
-        pur = _purify_for_nlsat(list(self.pc) + [np_]) if r == z3.unknown else None
-        if pur is not None:
-            self.nq += 1
-            t1 = time.time()
-            ns = _nlsat_solver()
-            ns.set("timeout", min(10000, self.timeout_ms))
-            rn = _guarded_check(ns, pur[0], min(10000, self.timeout_ms))
-            self.tq += time.time() - t1
-            if rn == z3.unsat:
-                r, relaxed = z3.unsat, True
-            elif rn == z3.sat and not pur[1]:
-                r = z3.sat
-                self._alt_model = ns.model()
-        if r == z3.unknown and big:
-            self.set_timeout(min(15000, self.timeout_ms))
-            if _abstraction() == z3.unsat:
-                r, relaxed = z3.unsat, True
-        if r == z3.unknown:
-            self.set_timeout(min(5000, self.timeout_ms))
-            r = self.check(np_)
-        if r == z3.unknown:
-            # dropping hypotheses is sound for `unsat`: retry without the integer-rounding facts of the path
-            self.set_timeout(self.timeout_ms)
-            pc2 = [f for f in self.pc if not _has_toint(f)]
-            if len(pc2) < len(self.pc):
+        # past the case's time budget nothing more is asked of the solver: the obligation is reported `unknown` (after the cheap
+        # float-evaluation search below), so that a case ends with its partial results instead of being killed at the hard limit
+        dl = getattr(self, "deadline", None)
+        past = dl is not None and time.time() > dl
+        if not past:
+            # cone of influence: only the hypotheses that (transitively) share a symbol with the goal.  Dropping
+            # hypotheses is sound for `unsat`; a `sat` here is not used.
+            sliced = _cone(self.pc, np_)
+            if len(sliced) < len(self.pc):
+                pur0 = _purify_for_nlsat(sliced + [np_])
                 self.nq += 1
                 t1 = time.time()
-                r2 = _guarded_check(self.s, pc2 + [np_], self.timeout_ms)
+                if pur0 is not None:
+                    ns = _nlsat_solver()
+                    ns.set("timeout", min(10000, self.timeout_ms))
+                    r0 = _guarded_check(ns, pur0[0], min(10000, self.timeout_ms))
+                else:
+                    self.set_timeout(min(5000, self.timeout_ms))
+                    r0 = _guarded_check(self.s, sliced + [np_], self._cur_timeout())
                 self.tq += time.time() - t1
-                if r2 == z3.unsat:
-                    r, relaxed = r2, True
-            if r == z3.unknown and not big:
+                if r0 == z3.unsat:
+                    r, relaxed = z3.unsat, True
+            # pure non-linear real arithmetic: the nlsat tactic alone is far stronger than the default combination
+            pur = _purify_for_nlsat(list(self.pc) + [np_]) if r == z3.unknown else None
+            if pur is not None:
+                self.nq += 1
+                t1 = time.time()
+                ns = _nlsat_solver()
+                ns.set("timeout", min(10000, self.timeout_ms))
+                rn = _guarded_check(ns, pur[0], min(10000, self.timeout_ms))
+                self.tq += time.time() - t1
+                if rn == z3.unsat:
+                    r, relaxed = z3.unsat, True
+                elif rn == z3.sat and not pur[1]:
+                    r = z3.sat
+                    self._alt_model = ns.model()
+            if r == z3.unknown and big:
+                self.set_timeout(min(15000, self.timeout_ms))
                 if _abstraction() == z3.unsat:
                     r, relaxed = z3.unsat, True
-            if r == z3.unknown and not big:
+            if r == z3.unknown:
+                self.set_timeout(min(5000, self.timeout_ms))
                 r = self.check(np_)
+            if r == z3.unknown:
+                # dropping hypotheses is sound for `unsat`: retry without the integer-rounding facts of the path
+                self.set_timeout(self.timeout_ms)
+                pc2 = [f for f in self.pc if not _has_toint(f)]
+                if len(pc2) < len(self.pc):
+                    self.nq += 1
+                    t1 = time.time()
+                    r2 = _guarded_check(self.s, pc2 + [np_], self.timeout_ms)
+                    self.tq += time.time() - t1
+                    if r2 == z3.unsat:
+                        r, relaxed = r2, True
+                if r == z3.unknown and not big:
+                    if _abstraction() == z3.unsat:
+                        r, relaxed = z3.unsat, True
+                if r == z3.unknown and not big:
+                    r = self.check(np_)
         self.set_timeout(self.timeout_ms)
+        fals = None
+        if r == z3.unknown and replay is not None:
+            # the solver gave up: look for a counterexample by evaluating the path condition and the negated
+            # obligation in floats at random points of the input box.  A hit is only a CANDIDATE (it is replayed on
+            # the real code like any solver model); a miss leaves the obligation `unknown`.
+            fals = self._falsify(np_, tries=60 if past else 300, points=3 if past else 12) if not (past and time.time() > dl + 90) else None
+            if fals is not None:
+                r = z3.sat
         rec = {"name": name, "result": str(r), "reach": str(reach), "path": len(self.results), "info": info,
                "secs": round(time.time() - t0, 2), "relaxed": relaxed}
+        if fals is not None:
+            rec.update(model=fals, replay=replay, _neg=z3.Not(p), found_by="float evaluation after solver unknown")
+            self.results.append(rec)
+            return False
         if r == z3.unsat and SECOND["budget"] > 0 and name not in SECOND["seen"]:
             SECOND["seen"].add(name)
             SECOND["budget"] -= 1
@@ -341,6 +358,92 @@ class Ctx:
             rec["_neg"] = z3.Not(p)
         self.results.append(rec)
         return r == z3.unsat
+
+    def _falsify(self, neg, tries=300, points=12):
+        import random
+        from .feval import feval
+
+        rnd = random.Random(20260922 + len(self.results))
+        box = {}
+        for f in self.pc:
+            if not z3.is_app(f) or f.num_args() != 2:
+                continue
+            a, b = f.arg(0), f.arg(1)
+            k = f.decl().kind()
+            if z3.is_const(a) and a.decl().kind() == z3.Z3_OP_UNINTERPRETED and (z3.is_rational_value(b) or z3.is_int_value(b)):
+                v = float(b.as_fraction()) if z3.is_rational_value(b) else b.as_long()
+                lo, hi = box.get(str(a), (None, None))
+                if k in (z3.Z3_OP_GE, z3.Z3_OP_GT):
+                    lo = v if lo is None else max(lo, v)
+                elif k in (z3.Z3_OP_LE, z3.Z3_OP_LT):
+                    hi = v if hi is None else min(hi, v)
+                box[str(a)] = (lo, hi)
+        names = list(self.inputs.items())
+        # constants the harness introduced without registering them as inputs (e.g. a symbolic wavelength): free reals too.
+        # Only the cone of influence of the goal is evaluated, so unrelated fresh symbols do not spoil a point.
+        cone = _cone(self.pc, neg)
+        extra = set(_vars_of(neg))
+        for f in cone:
+            extra |= set(_vars_of(f))
+        extra -= {"PI"} | set(self.inputs) | set(self.defs)
+        names += [(nm, z3.Real(nm)) for nm in sorted(extra)]
+        for _ in range(tries):
+            env = {}
+            ok = True
+            for nm, v in names:
+                lo, hi = box.get(nm, (None, None))
+                srt = v.sort().kind()
+                if srt == z3.Z3_BOOL_SORT:
+                    env[nm] = rnd.random() < 0.5
+                elif srt == z3.Z3_INT_SORT:
+                    lo_i = int(lo) if lo is not None else (int(hi) - 6 if hi is not None else -3)
+                    hi_i = int(hi) if hi is not None else lo_i + 6
+                    env[nm] = rnd.randint(lo_i, max(lo_i, hi_i))
+                elif srt == z3.Z3_REAL_SORT:
+                    lo_r = lo if lo is not None else (hi - 4.0 if hi is not None else -2.0)
+                    hi_r = hi if hi is not None else lo_r + 4.0
+                    env[nm] = round(rnd.uniform(lo_r, hi_r), 3)
+                else:
+                    ok = False
+                    break
+            if not ok:
+                return None
+            try:
+                cache = {}
+                if all(feval(f, env, self.defs, cache, tol=1e-9) for f in cone) and feval(neg, env, self.defs, cache, tol=1e-7):
+                    return {k: v for k, v in env.items() if k in self.inputs}
+            except Exception:  # noqa: BLE001  unbound fresh symbol, division by zero, ...: not a usable point
+                continue
+        # relational path conditions (|k| * wavelength < cutoff ...) are rarely met by box sampling: let the solver produce points
+        # of the path condition ALONE (cheap), pushed around by random half-space constraints, and evaluate the goal there in floats
+        for t in range(points):
+            s2 = z3.Solver()
+            s2.set("timeout", 2000)
+            s2.set("random_seed", t)
+            s2.add(*cone)
+            if t:
+                for nm, v in names:
+                    if v.sort().kind() == z3.Z3_REAL_SORT and rnd.random() < 0.6:
+                        lo, hi = box.get(nm, (None, None))
+                        lo_r = lo if lo is not None else (hi - 4.0 if hi is not None else -2.0)
+                        hi_r = hi if hi is not None else lo_r + 4.0
+                        cut = z3.RealVal(str(round(rnd.uniform(lo_r, hi_r), 2)))
+                        s2.add(v >= cut if rnd.random() < 0.5 else v <= cut)
+            try:
+                if _guarded_check(s2, [], 2000) != z3.sat:
+                    continue
+                m = s2.model()
+                env = {}
+                for nm, v in names:
+                    env[nm] = _pyval(m.eval(v, model_completion=True))
+                    if isinstance(env[nm], fractions.Fraction):
+                        env[nm] = float(env[nm])
+                cache = {}
+                if all(feval(f, env, self.defs, cache, tol=1e-9) for f in cone) and feval(neg, env, self.defs, cache, tol=1e-7):
+                    return {k: v for k, v in env.items() if k in self.inputs}
+            except Exception:  # noqa: BLE001
+                continue
+        return None
 
     def canary(self, name, wrong_prop):
         """A deliberately wrong specification; must be refutable (sat) somewhere."""
@@ -560,6 +663,7 @@ def explore(fn, max_paths=2000, timeout_ms=20000, pin=None, deadline=None):
             break
         prefix = stack.pop()
         c = Ctx(timeout_ms=timeout_ms, pin=pin)
+        c.deadline = deadline
         c.prefix = prefix
         Ctx.cur = c
         try:
